@@ -95,6 +95,23 @@ def compare(ast, sm, schema, text, rng=None):
                     out.append(("delivered-object-not-in-tree", "handler %s got %r" % (nm, v)))
                     break
     if distinct:
+        # 1b. callables that are false in a boolean context are still callables (only None skips)
+        calls[:] = []
+
+        class FalsyRecorder(list):
+            def __init__(self, name):
+                list.__init__(self)
+                self.name = name
+
+            def __call__(self, value):
+                calls.append((self.name, value))
+        try:
+            handler({nm: FalsyRecorder(nm) for nm in distinct})
+        except Exception as e:  # noqa
+            out.append(("falsy-callable-map-raises", repr(e)))
+        else:
+            if [c[0] for c in calls] != names:
+                out.append(("falsy-callable-skipped", "called %r expected %r" % ([c[0] for c in calls], names)))
         # 2. one name missing -> error, nothing called
         for victim in (distinct[0], distinct[-1]):
             calls[:] = []
